@@ -15,7 +15,7 @@ import vlib
 LEVEL = "model_checking"
 HARNESS = "c02_convert"
 INV = "RepValid LawsHold ChunksExist Emit"
-ALLOPS = ["conv", "clone", "transp", "permute", "layout", "graph", "copy", "format", "poke"]
+ALLOPS = ["conv", "clone", "transp", "tinplace", "permute", "layout", "graph", "copy", "format", "poke"]
 ALLTY = ["f64u64", "f64u32", "f32u32"]
 MAXPAR = 6
 
@@ -29,7 +29,7 @@ PAL = ["csr_pal", "cscr_pal", "banded_pal", "dense_pal", "bcsr_pal"]
 
 
 def configs(tier):
-    PATOPS = ["conv", "transp", "permute", "graph", "layout"]      # calls whose result depends on the sparsity pattern
+    PATOPS = ["conv", "transp", "tinplace", "permute", "graph", "layout"]      # calls whose result depends on the sparsity pattern
     c = [
         # every call once on every seed matrix (exhaustive over inputs)
         cfgd("single: csr shapes <= 3x2/2x3 + entry-free 3x5, all patterns, all permutation pairs", ["csr_small"], perm="all"),
@@ -41,17 +41,17 @@ def configs(tier):
         cfgd("single: palette seeds built as float/uint32 and double/uint32", PAL, seedtypes=["f32u32", "f64u32"]),
         cfgd("single: stored zeros and repeated values", ["csr_small", "banded_pal", "cscr_pal", "bcsr_pal"], pal=2, types=["f32u32"], ops=PATOPS + ["clone"]),
         # pairs: transpose twice, permutation then every permutation (incl. the inverse)
-        cfgd("double transpose", ["csr_small", "dense_small", "bcsr22", "bcsr23", "bcsr32"], ops=["transp"], depth=2, ns=3, types=[]),
+        cfgd("double transpose", ["csr_small", "dense_small", "bcsr22", "bcsr23", "bcsr32"], ops=["transp", "tinplace"], depth=2, ns=3, types=[]),
         cfgd("permute twice (all pairs of permutation pairs)", ["csr_perm", "bcsr_perm"], ops=["permute"], depth=2, ns=1, types=[], perm="all"),
         # aliasing: clone / layout, then poke, format, copy
-        cfgd("alias chains of 3 calls on 3 slots: clone, layout, poke, copy", ["mini"], ops=["clone", "poke", "copy", "layout"],
+        cfgd("alias chains of 3 calls on 3 slots: clone, layout, poke, copy, dense transpose_inplace", ["mini"], ops=["clone", "poke", "copy", "layout", "tinplace"],
              depth=3, ns=3, types=[]),
         cfgd("alias chains of 2 calls on 2 slots incl. type-converting clones and converts", PAL, ops=["clone", "conv", "poke", "copy", "format", "layout"],
              depth=2, ns=2, types=["f32u32"]),
         # general chains
         cfgd("chains of 2 calls, 2 slots, all calls", PAL, depth=2, ns=2, types=[]),
         cfgd("chains of 3 calls, 2 slots: convert, transpose, permute, weak/shallow... clone, poke", ["mini"], depth=3, ns=2, types=[],
-             ops=["conv", "transp", "permute", "clone", "poke"]),
+             ops=["conv", "transp", "tinplace", "permute", "clone", "poke"]),
     ]
     if tier == "thorough":
         c += [
@@ -62,15 +62,14 @@ def configs(tier):
             cfgd("single: bcsr 3x3 blocks", ["bcsr_33"], ops=PATOPS),
             cfgd("single: csr 3x3 all patterns, stored zeros, all permutation pairs", ["csr_33"], pal=2, perm="all", types=["f32u32"],
                  ops=["conv", "transp", "permute", "graph"]),
-            cfgd("alias chains of 3 calls on 3 slots, chain palette", PAL, ops=["clone", "poke", "copy", "format", "layout"], depth=3, ns=3, types=[]),
-            cfgd("alias chains of 4 calls on 3 slots", ["mini"], ops=["clone", "poke", "copy", "conv"], depth=4, ns=3, types=[]),
+            cfgd("alias chains of 3 calls on 3 slots, chain palette (csr, dense, bcsr)", ["csr_pal", "dense_pal", "bcsr_pal"],
+                 ops=["clone", "poke", "copy", "format", "layout", "tinplace"], depth=3, ns=3, types=[]),
+            cfgd("alias chains of 4 calls on 2 slots", ["mini"], ops=["clone", "poke", "copy"], depth=4, ns=2, types=[]),
             cfgd("permute twice, all csr shapes <= 3x2/2x3", ["csr_small"], ops=["permute"], depth=2, ns=1, types=[], perm="all"),
-            cfgd("chains of 3 calls, 2 slots, all calls", ["mini"], depth=3, ns=2, types=["f32u32"]),
-            cfgd("chains of 3 calls, 3 slots, all calls", ["mini"], depth=3, ns=3, types=[]),
-            cfgd("chains of 3 calls, 2 slots, all calls, chain palette", PAL, depth=3, ns=2, types=[]),
-            cfgd("chains of 4 calls, 2 slots", ["mini"], depth=4, ns=2, types=[], ops=["conv", "clone", "transp", "permute", "layout", "copy", "poke"]),
-            cfgd("random chains of 10 calls on 3 slots (simulate)", PAL, depth=10, ns=3, simulate=4000, workers=4),
-            cfgd("random chains of 16 calls on 3 slots, stored zeros (simulate)", PAL, depth=16, ns=3, simulate=1500, pal=2, workers=4),
+            cfgd("chains of 3 calls, 2 slots, all calls", ["mini"], depth=3, ns=2, types=[]),
+            cfgd("chains of 4 calls, 2 slots: convert, transpose, permute, poke", ["mini"], depth=4, ns=2, types=[], ops=["conv", "transp", "permute", "poke"]),
+            cfgd("random chains of 10 calls on 3 slots (simulate)", PAL, depth=10, ns=3, simulate=600, workers=4, types=["f32u32"]),
+            cfgd("random chains of 16 calls on 3 slots, stored zeros (simulate)", PAL, depth=16, ns=3, simulate=200, pal=2, workers=4, types=["f32u32"]),
         ]
     return c
 
@@ -85,37 +84,22 @@ def cfg_text(c):
                                                          c["perm"], c["pal"], INV))
 
 
-def generate(chk, tier):
-    jobs = configs(tier)
-
-    def one(k, c):
-        cfg = "gen_C02_%d_%d.cfg" % (os.getpid(), k)
-        with open(os.path.join(vlib.SPEC, cfg), "w") as f:
-            f.write(cfg_text(c))
+def gen_one(k, c):
+    cfg = "gen_C02_%d_%d.cfg" % (os.getpid(), k)
+    with open(os.path.join(vlib.SPEC, cfg), "w") as f:
+        f.write(cfg_text(c))
+    try:
+        if c["simulate"]:
+            # (in simulation mode TLC evaluates Emit on every successor of the last-but-one state, so one random walk
+            # yields its whole fan of final calls)
+            return vlib.tlc("Convert", cfg, workers=c["workers"], simulate=c["simulate"], depth=c["depth"] + 2, tseed=vlib.seed() + k,
+                            timeout=2400, xmx="4g", tag="C02_%d" % k)
+        return vlib.tlc("Convert", cfg, workers=c["workers"], timeout=2400, xmx="5g", tag="C02_%d" % k)
+    finally:
         try:
-            if c["simulate"]:
-                return vlib.tlc("Convert", cfg, workers=c["workers"], simulate=c["simulate"], depth=c["depth"] + 2, tseed=vlib.seed() + k,
-                                timeout=2400, xmx="4g", tag="C02_%d" % k)
-            return vlib.tlc("Convert", cfg, workers=c["workers"], timeout=2400, xmx="5g", tag="C02_%d" % k)
-        finally:
-            try:
-                os.remove(os.path.join(vlib.SPEC, cfg))
-            except OSError:
-                pass
-
-    cases = []
-    with cf.ThreadPoolExecutor(max_workers=MAXPAR) as ex:
-        futs = [(ex.submit(one, k, c), c) for k, c in enumerate(jobs)]
-        for f, c in futs:
-            r = f.result()
-            chk.add_tlc(r, c["name"])
-            if r.violation:
-                chk.model_violation(r, "Convert.tla invariant (%s)" % c["name"])
-            if not r.printed:
-                raise vlib.MachineryError("generator produced no histories for: " + c["name"])
-            chk.extra.setdefault("histories_per_config", {})[c["name"]] = len(r.printed)
-            cases.extend(r.printed)
-    return cases
+            os.remove(os.path.join(vlib.SPEC, cfg))
+        except OSError:
+            pass
 
 
 # ---------------------------------------------------------------------------------------------------------
@@ -185,17 +169,11 @@ def confirm_and_localise(binary, path, k, case):
     return r, len(case["steps"]) - 1, r.get("outcome", "mismatch")
 
 
-def judge(chk, binary, cases, results):
+def judge(binary, cases, results):
+    """-> (list of (sig, desc, replay) for the confirmed disagreements, number unconfirmed)"""
     bad = [k for k, r in enumerate(results) if r.get("ok") is not True]
-    unconfirmed = 0
-    nsteps = 0
-    ops = {}
-    for c in cases:
-        nsteps += len(c["steps"]) - 1
-        for st in c["steps"][1:]:
-            ops[st["op"]] = ops.get(st["op"], 0) + 1
-        chk.count(json.dumps([[s["op"], s["src"], s["dst"], s["fmt"], s["ty"], s["mode"], s["p"], s["q"], s["k"], s["full"]] for s in c["steps"][1:]]
-                             + [c["steps"][0]["exp"][0]["st"]], sort_keys=True), True)
+    if not bad:
+        return [], 0
     import tempfile, shutil
     tmpd = tempfile.mkdtemp(prefix="cases_", dir=vlib.BUILD)
     path = os.path.join(tmpd, "failed.ndjson")
@@ -203,36 +181,78 @@ def judge(chk, binary, cases, results):
         for k in bad:
             f.write(json.dumps(cases[k], separators=(",", ":")) + "\n")
     try:
-        with cf.ThreadPoolExecutor(max_workers=vlib.NCPU) as ex:
+        with cf.ThreadPoolExecutor(max_workers=max(2, vlib.NCPU // 2)) as ex:
             futs = [(k, ex.submit(confirm_and_localise, binary, path, j, cases[k])) for j, k in enumerate(bad)]
             outs = [(k, f.result()) for k, f in futs]
     finally:
         shutil.rmtree(tmpd, ignore_errors=True)
-    if True:
-        for k, (r, step, what) in outs:
-            if r is None:
-                unconfirmed += 1
-                continue
-            sig = sig_of(cases[k], step, what)
-            desc = r.get("why") or ("outcome %s at step %d (%s): %s" % (r.get("outcome"), step, cases[k]["steps"][step]["op"], " ".join((r.get("stderr") or "")[:300].split())))
-            chk.violation(sig, desc, {"kind": "case", "harness": HARNESS, "case": cases[k], "result": r, "step": step})
-    chk.extra["calls_replayed"] = nsteps
-    chk.extra["calls_per_kind"] = ops
-    chk.extra["failed_in_batch_but_passed_alone"] = unconfirmed
+    found, unconfirmed = [], 0
+    for k, (r, step, what) in outs:
+        if r is None:
+            unconfirmed += 1
+            continue
+        sig = sig_of(cases[k], step, what)
+        desc = r.get("why") or ("outcome %s at step %d (%s): %s" % (r.get("outcome"), step, cases[k]["steps"][step]["op"], " ".join((r.get("stderr") or "")[:300].split())))
+        found.append((sig, desc, {"kind": "case", "harness": HARNESS, "case": cases[k], "result": r, "step": step}))
+    return found, unconfirmed
+
+
+def hist_key(c):
+    return json.dumps([[s["op"], s["src"], s["dst"], s["fmt"], s["ty"], s["mode"], s["p"], s["q"], s["k"], s["full"]] for s in c["steps"][1:]]
+                      + [c["steps"][0]["exp"][0]["st"]], sort_keys=True)
+
+
+def one_config(binary, k, c):
+    """generate, replay and judge the histories of one configuration (kept local so that memory is released per configuration)"""
+    import hashlib
+    r = gen_one(k, c)
+    cases = r.printed
+    r.printed = []
+    out = {"tlc": r, "n": len(cases), "ops": {}, "steps": 0, "keys": set(), "found": [], "unconfirmed": 0, "samples": []}
+    r.out = r.out[-4000:] if not r.violation else r.out
+    if not cases:
+        return out
+    res = vlib.run_cases(binary, cases, tmo=20, shards=max(2, vlib.NCPU // 3))
+    for cse in cases:
+        out["steps"] += len(cse["steps"]) - 1
+        for st in cse["steps"][1:]:
+            out["ops"][st["op"]] = out["ops"].get(st["op"], 0) + 1
+        out["keys"].add(hashlib.md5(hist_key(cse).encode()).digest())
+    out["found"], out["unconfirmed"] = judge(binary, cases, res)
+    out["found"] = out["found"][:20000]
+    out["samples"] = cases[len(cases) // 2: len(cases) // 2 + 1]
+    return out
 
 
 def run(chk):
     binary, = vlib.build([HARNESS])
-    import time
-    t0 = time.time()
-    cases = generate(chk, chk.tier)
-    t1 = time.time()
-    res = vlib.run_cases(binary, cases, tmo=20)
-    t2 = time.time()
-    judge(chk, binary, cases, res)
-    vlib.log("[C02] %d histories: generation %.0fs, replay %.0fs, confirmation of %d disagreements in isolation %.0fs" % (
-        len(cases), t1 - t0, t2 - t1, sum(1 for r in res if r.get("ok") is not True), time.time() - t2))
-    chk.traces = len(cases)
+    jobs = configs(chk.tier)
+    total, nsteps, ops, unconf, samples = 0, 0, {}, 0, []
+    keys = set()
+    with cf.ThreadPoolExecutor(max_workers=MAXPAR) as ex:
+        futs = [(ex.submit(one_config, binary, k, c), c) for k, c in enumerate(jobs)]
+        for f, c in futs:
+            o = f.result()
+            r = o["tlc"]
+            chk.add_tlc(r, c["name"])
+            if r.violation:
+                chk.model_violation(r, "Convert.tla invariant (%s)" % c["name"])
+            if not o["n"]:
+                raise vlib.MachineryError("generator produced no histories for: " + c["name"])
+            chk.extra.setdefault("histories_per_config", {})[c["name"]] = o["n"]
+            total += o["n"]; nsteps += o["steps"]; unconf += o["unconfirmed"]
+            for kk, v in o["ops"].items():
+                ops[kk] = ops.get(kk, 0) + v
+            keys |= o["keys"]
+            samples += o["samples"]
+            for sig, desc, rp in o["found"]:
+                chk.violation(sig, desc, rp)
+    chk.evaluations = total
+    chk.distinct = keys
+    chk.extra["calls_replayed"] = nsteps
+    chk.extra["calls_per_kind"] = ops
+    chk.extra["failed_in_batch_but_passed_alone"] = unconf
+    chk.traces = total
     chk.exhaustive = True
     chk.rule = ("every behaviour of spec/Convert.tla within the configured bounds: (a) every seed matrix of the palettes (all sparsity patterns of "
                 "the listed shapes per format, entry-free and empty-row matrices, array-less and allocated entry-free containers) x every enabled "
@@ -240,7 +260,7 @@ def run(chk):
                 "2-3 (thorough: 4) calls over 2-3 slots on the chain palette; (c) thorough: seeded random histories of 10 and 16 calls (-simulate). "
                 "After each call every slot is compared (dimensions, used_elements, raw arrays, dense expansion, pointer identity). "
                 "distinct = distinct (seed, call sequence with arguments)")
-    for c in cases[len(cases) // 2: len(cases) // 2 + 2] + cases[-1:]:
+    for c in samples[3:4] + samples[9:10] + samples[-2:]:
         chk.sample({"seed": {k: c["steps"][0]["exp"][0]["st"][k] for k in ("fmt", "ty", "m", "n", "dense")},
                     "calls": [{k: s[k] for k in ("op", "src", "dst", "fmt", "ty", "mode", "p", "q") if s[k] not in ("", [], 0)} for s in c["steps"][1:]]})
     chk.assumptions = ["values are small integers (exact in float and double); conversion of values that are not representable in the target type is not explored",
